@@ -63,6 +63,7 @@ type concRun struct {
 	delMan map[string]map[string]bool   // repo -> digests some client tries to delete
 	delTag map[string]map[string]bool
 	subj   map[string]map[string]string // repo -> artifact digest -> subject
+	tagAck map[string]bool              // repo + " " + tag: some push under this tag was acknowledged
 	inflight int
 	closing  bool
 	done     []bool
@@ -121,7 +122,9 @@ func linStep(state, input, output interface{}) (bool, interface{}) {
 		return true, n
 	case "deltag":
 		_, ok := s.Tags[in.Tag]
-		if ok != (out.Code == 202) {
+		// deleting something that is already gone may be acknowledged again (202) when another delete was in flight:
+		// the property speaks of lost updates and impossible reads, not of the status of a redundant delete
+		if ok && out.Code != 202 || !ok && out.Code != 404 && out.Code != 202 {
 			return false, s
 		}
 		if !ok {
@@ -132,7 +135,7 @@ func linStep(state, input, output interface{}) (bool, interface{}) {
 		return true, n
 	case "delman":
 		_, ok := s.Mans[in.Digest]
-		if ok != (out.Code == 202) {
+		if ok && out.Code != 202 || !ok && out.Code != 404 && out.Code != 202 {
 			return false, s
 		}
 		if !ok {
@@ -222,6 +225,12 @@ func (c *concRun) cPutMan(client int, repo string, o *Obj, tag string) {
 			c.acked[repo] = map[string]bool{}
 		}
 		c.acked[repo][d] = true
+		if tag != "" {
+			if c.tagAck == nil {
+				c.tagAck = map[string]bool{}
+			}
+			c.tagAck[repo+" "+tag] = true
+		}
 		if view.subject != "" {
 			if c.subj[repo] == nil {
 				c.subj[repo] = map[string]string{}
@@ -229,7 +238,7 @@ func (c *concRun) cPutMan(client int, repo string, o *Obj, tag string) {
 			c.subj[repo][d] = view.subject
 		}
 		w.x.out.probe("conc-put-201")
-	} else if !c.closing && !r.Panicked {
+	} else if !c.closing && !r.Panicked && !(w.lenientUpload5xx && r.is5xx()) {
 		w.x.viol([]string{"C11"}, "conc.unexpected-status", fmt.Sprintf("PUT manifest -> %d", r.Code), fmt.Sprintf("concurrent PUT %s/manifests/%s of a complete manifest answered %d %v", repo, ref, r.Code, w.errCodes(r)))
 	}
 }
@@ -351,7 +360,7 @@ func (c *concRun) cCancelled(client int, repo string, op Op) {
 	fired := false
 	tm := simrt.AfterFunc(time.Duration(op.Ms)*time.Microsecond, func() { fired = true; cancel() })
 	start := time.Now()
-	r := w.do(reqSpec{method: "GET", path: "/v2/" + repo + "/tags/list", repos: []string{repo}, ctx: ctx})
+	r := w.do(reqSpec{method: "GET", path: "/v2/" + repo + "/tags/list", repos: []string{repo}, ctx: ctx, abort: true, abortAt: 1 << 30})
 	tm.Stop()
 	cancel()
 	if fired && r.is5xx() {
@@ -468,10 +477,29 @@ func engineConc(x *X) {
 	if f := p.Knobs.freq(); f <= 0 || f >= time.Second {
 		limit += time.Hour
 	}
-	w.lenientUpload5xx = true // a session may expire or be evicted while a request on it is in flight
+	if um := p.Knobs.uploadMax(); (um > 0 && um < 100) || (p.Knobs.grace() > 0 && p.Knobs.grace() < time.Minute) {
+		w.lenientUpload5xx = true // a session may expire or be evicted while a request on it is in flight
+	}
 	if ms, ok := p.Extra["live_ms"].(float64); ok {
 		limit = time.Duration(ms) * time.Millisecond
 	}
+	// the workload's own think times and slow bodies are not hangs
+	var planned time.Duration
+	for _, ops := range p.Clients[1:] {
+		var t time.Duration
+		for _, op := range ops {
+			switch op.K {
+			case "sleep":
+				t += time.Duration(op.Ms) * time.Millisecond
+			case "blob":
+				t += time.Duration(len(op.Chunks)) * (time.Duration(op.A)*time.Millisecond + 4*time.Duration(op.Ms)*time.Millisecond)
+			}
+		}
+		if t > planned {
+			planned = t
+		}
+	}
+	limit += 2 * planned
 	var wg simrt.WaitGroup
 	nc := len(p.Clients) - 1
 	c.done = make([]bool, nc)
@@ -576,14 +604,19 @@ func (c *concRun) quiescentChecks() {
 					return
 				}
 			} else if !c.delTag[repo][t] {
-				// nobody deletes the tag; it may vanish only with its manifest
-				gone := true
+				// nobody deletes the tag; it may vanish only with a manifest it pointed to at some moment: if any candidate is
+				// deleted by digest some sequential order removes the tag (the exact orders are porcupine's business)
+				mayVanish := false
+				anyAcked := false
 				for _, d := range c.tagged[repo][t] {
-					if !c.delMan[repo][d] && c.acked[repo][d] {
-						gone = false
+					if c.delMan[repo][d] {
+						mayVanish = true
+					}
+					if c.acked[repo][d] && c.tagAck[repo+" "+t] {
+						anyAcked = true
 					}
 				}
-				if !gone {
+				if !mayVanish && anyAcked {
 					w.x.viol([]string{"C11"}, "conc.lost-update", "tag", fmt.Sprintf("%s: tag %s was pushed (candidates %v), nobody deleted it or all of its manifests, and it answers %d", repo, t, c.tagged[repo][t], r.Code))
 					return
 				}
